@@ -1,7 +1,7 @@
 """Shared part of the PTG checks (C01, C23; reusable by C02/C16/C24/C15/C22).
 
 A case line is   <mode> <config> <config> … | <program in the format of tools/jdfgen.py to_case>
-with  config = scheduler:threads[:startup_iter:startup_chunk[:again_max]]
+with  config = scheduler:threads[:startup_iter:startup_chunk[:again_max[:repetitions]]]   ('-' = default iter/chunk)
 The model side (ocaml/d_ptg.ml) ignores the configurations.  The implementation side is
 driven from Python (run_impl is overridden): for every case the JDF is written, compiled by
 parsec-ptgpp (built from the repository under test), compiled and linked with
@@ -33,12 +33,15 @@ def link_flags():
 
 
 def parse_config(s):
+    """scheduler:threads[:iter:chunk[:again[:reps]]]  ('-' for iter/chunk = runtime default)"""
     w = s.split(":")
-    d = {"sched": w[0], "threads": int(w[1]) if len(w) > 1 else 1, "iter": None, "chunk": None, "again": 0}
-    if len(w) > 3:
+    d = {"sched": w[0], "threads": int(w[1]) if len(w) > 1 else 1, "iter": None, "chunk": None, "again": 0, "reps": 1}
+    if len(w) > 3 and w[2] != "-" and w[3] != "-":
         d["iter"], d["chunk"] = int(w[2]), int(w[3])
     if len(w) > 4:
         d["again"] = int(w[4])
+    if len(w) > 5:
+        d["reps"] = int(w[5])
     return d
 
 
@@ -46,6 +49,8 @@ def config_args(cfg, seed=1):
     a = []
     if cfg["again"]:
         a += ["--again", str(seed), str(cfg["again"])]
+    if cfg.get("reps", 1) > 1:
+        a += ["--reps", str(cfg["reps"])]
     a += ["--cfg", str(cfg["threads"]), "--mca", "mca_sched", cfg["sched"]]
     if cfg["iter"] is not None:
         a += ["--mca", "task_startup_iter", str(cfg["iter"]), "--mca", "task_startup_chunk", str(cfg["chunk"])]
